@@ -1,18 +1,36 @@
 (* Correspondence for C10: the Q instance of M_rodrigues.v against observed results of the implementation. *)
-From Coq Require Import ZArith QArith Qabs List Bool.
+From Coq Require Import ZArith QArith Qround Qabs List Bool.
 From PW Require Import Num NumQ Vec Mat NpList Result Agree.
 From PW.model Require Import M_rodrigues.
 Import ListNotations.
 Local Open Scope Q_scope.
 
-(* QOps with arccos answered by data: t is the angle the implementation used (|r_out|); check_case verifies
-   separately that cos t is the model's c (Qacos costs seconds per call; a few cases use the real one). *)
-Definition QOpsT (t : Q) : NumOps Q := {|
-  nofZ := nofZ QOps; nadd := nadd QOps; nsub := nsub QOps; nmul := nmul QOps; ndiv := ndiv QOps;
-  nneg := nneg QOps; nabs := nabs QOps; nsqrt := nsqrt QOps;
-  nltb := nltb QOps; nleb := nleb QOps; neqb := neqb QOps;
-  nfloor := nfloor QOps; nceil := nceil QOps;
-  ncos := ncos QOps; nsin := nsin QOps; nacos := fun _ => t |}.
+(* Execution instance for this property: 256-bit binary fixed point (numbers are n # 2^256, never reduced).
+   The exact-rational QOps spends seconds per Jacobian in gcd normalisation (products of cos, sin, 1/theta with
+   unrelated denominators); fixed point needs no gcd.  Rounding is below 1e-76 absolute, far under the 1e-9
+   agreement tolerance; inputs below 2^-256 flush to zero, which is the `theta < eps` branch in code and model. *)
+Definition fxP : Z := 256.
+Definition fx1 : Z := 2 ^ fxP.
+Definition fx_pos : positive := Z.to_pos fx1.
+Definition fxn (x : Q) : Z := if Pos.eqb (Qden x) fx_pos then Qnum x else (Qnum x * fx1 / Zpos (Qden x))%Z.
+Definition fx (n : Z) : Q := n # fx_pos.
+Definition fx_div a b := let nb := fxn b in if (nb =? 0)%Z then fx 0 else fx (fxn a * fx1 / nb).
+Definition fx_sqrt a := let na := fxn a in if (na <=? 0)%Z then fx 0 else fx (Z.sqrt (na * fx1)).
+Definition fx_of_fp (z : Z) : Q := fx (Z.shiftl z (fxP - fpB)).
+Definition fx_to_fp (x : Q) : Z := Z.shiftr (fxn x) (fxP - fpB).
+(* arccos: answered by data t (the angle the implementation used, |r_out|); check_case verifies separately that
+   cos t is the model's c.  Qacos costs seconds per call; a few cases per run use it (acos = None). *)
+Definition QOpsF (acos : option Q) : NumOps Q := {|
+  nofZ := fun z => fx (z * fx1);
+  nadd := fun a b => fx (fxn a + fxn b); nsub := fun a b => fx (fxn a - fxn b);
+  nmul := fun a b => fx (Z.shiftr (fxn a * fxn b) fxP); ndiv := fx_div;
+  nneg := fun a => fx (- fxn a); nabs := fun a => fx (Z.abs (fxn a)); nsqrt := fx_sqrt;
+  nltb := fun a b => (fxn a <? fxn b)%Z; nleb := fun a b => (fxn a <=? fxn b)%Z; neqb := fun a b => (fxn a =? fxn b)%Z;
+  nfloor := Qfloor; nceil := Qceiling;
+  ncos := fun x => fx_of_fp (fp_cos (fx_to_fp x)); nsin := fun x => fx_of_fp (fp_sin (fx_to_fp x));
+  nacos := fun x => match acos with Some t => t | None => Qacos x end |}.
+Definition QOpsT (t : Q) : NumOps Q := QOpsF (Some t).
+Definition QF : NumOps Q := QOpsF None.
 
 (* what a call returned: shapes and flattened values of the result and (if requested) the Jacobian *)
 Inductive obs :=
@@ -61,12 +79,12 @@ Definition cos_tol : Q := 1 # 10000000000000.
 Definition check_case (c : case) : bool :=
   match c with
   | CCall f shape data jac P t real_acos o =>
-      let O := if real_acos then QOps else QOpsT t in
+      let O := if real_acos then QF else QOpsT t in
       let a := MkNd shape data in
       match run_model O f a jac P, o with
       | Raise e, Raise e' => exn_eqb e e'
       | Ok (OutMat m j), Ok (OArr sh vals jsh jvals) =>
-          let theta := rod_theta QOps (qv3 data) in
+          let theta := rod_theta QF (qv3 data) in
           nat_list_eqb sh [3; 3]%nat && list_close (m3list m) vals &&
           match j with
           | None => nat_list_eqb jsh [] && match jvals with [] => true | _ => false end
@@ -74,10 +92,10 @@ Definition check_case (c : case) : bool :=
           end
       | Ok (OutVec v j), Ok (OArr sh vals jsh jvals) =>
           let m := qm3 data in
-          let s := rod_inv_s QOps P in
-          let cc := rod_inv_c QOps P in
-          let halfturn := Qltb s (rod_small QOps) in
-          let zero_branch := halfturn && Qltb 0 cc in
+          let s := rod_inv_s QF P in
+          let cc := rod_inv_c QF P in
+          let halfturn := nltb QF s (rod_small QF) in
+          let zero_branch := halfturn && nltb QF 0 cc in
           (* contract of the svd step on (nearly) orthogonal inputs: projection = input *)
           list_close (m3list P) (map Fin (m3list m)) &&
           (* t is arccos of the model's c, in [0, pi] *)
